@@ -9,7 +9,7 @@ PROPS = {
                            "CE year and month lengths on top of the first-principles Calendar; MC_DateOps checks the statement's laws and documentation anchors; every recorded call on "
                            "NaiveDate/NaiveDateTime with u32/i32 extremes is validated by TLC.",
                 technique="TLA+ DateOps spec: TLC design check + trace validation of recorded month/field/week operations", assumptions=_A),
-    "C04": dict(gens=["Session_C04"], design=["DateOps", "Instant"], drive="C04", trace_cfgs={"Trace_DateTimeTz": "Trace_DateTimeTz.cfg"},
+    "C04": dict(lemmas=["ClockLaws_C04"], gens=["Session_C04"], design=["DateOps", "Instant"], drive="C04", trace_cfgs={"Trace_DateTimeTz": "Trace_DateTimeTz.cfg"},
                 level_text="DateTimeTz.tla models a zone-aware value as (UTC instant, offset) with the wall clock derived (one day of headroom beyond the date range); MC_DateOps checks "
                            "the round trips and that replacement/stepping act on the wall clock; recorded constructions, accessors, comparisons/hashes, with_* / day / month stepping at both "
                            "range ends and chained sessions under the invariant 'the instant never leaves MIN_UTC..MAX_UTC' are validated by TLC.",
